@@ -188,6 +188,44 @@ var valueSizes = []int{0, 1, 2, 7, 30, 1095, 1096, 1097, 1500, 2192, 5000}
 // set/add/replace: together with the appends of a long sequence an item must
 // stay within what the chunked handler is built for (999 chunks, i.e. about
 // 846 000 bytes under a 250-byte key).
+// shapeValue changes what a value consists of (not its length): 0 leaves it
+// alone, 1 all zero bytes, 2 the second half zero, 3 only the last byte zero,
+// 4 a zero tail longer than a chunk (1200 bytes), 5 the first half zero, 6 all
+// 0xff.  Zero-padded records, sparse buffers and saturated bitmaps are
+// ordinary cache payloads.
+func shapeValue(b []byte, class int) []byte {
+	fill := func(from, to int, c byte) {
+		for i := from; i < to && i < len(b); i++ {
+			if i >= 0 {
+				b[i] = c
+			}
+		}
+	}
+	switch class {
+	case 1:
+		fill(0, len(b), 0)
+	case 2:
+		fill(len(b)/2, len(b), 0)
+	case 3:
+		fill(len(b)-1, len(b), 0)
+	case 4:
+		fill(len(b)-1200, len(b), 0)
+	case 5:
+		fill(0, len(b)/2, 0)
+	case 6:
+		fill(0, len(b), 0xff)
+	}
+	return b
+}
+
+// genShape draws a content class: three quarters of the values stay as they are.
+func genShape(t *rapid.T, label string) int {
+	if rapid.IntRange(0, 3).Draw(t, label+"Shaped") != 0 {
+		return 0
+	}
+	return rapid.IntRange(1, 6).Draw(t, label+"Shape")
+}
+
 func genStoreValue(t *rapid.T, label string) []byte {
 	if rapid.IntRange(0, 39).Draw(t, label+"Big") == 0 {
 		size := rapid.SampledFrom([]int{65536, 70000, 120000}).Draw(t, label+"BigSize")
@@ -202,7 +240,7 @@ func genValue(t *rapid.T, label string) []byte {
 		size += rapid.IntRange(-3, 3).Draw(t, label+"Jitter")
 	}
 	seed := rapid.Uint32Range(0, 999).Draw(t, label+"Seed")
-	return mkValue(seed, size)
+	return shapeValue(mkValue(seed, size), genShape(t, label))
 }
 
 func genFlags(t *rapid.T, label string) uint32 {
